@@ -1,12 +1,13 @@
 SPECIFICATION Spec
 CONSTANTS
-  MaxVal = 3
-  MaxLen = 3
+  MaxVal = 2
+  MaxLen = 2
   MaxBonds <- MaxBondsQuick
   Renorms <- RenormsAll
   CutGrid <- CutGridQuick
   TableMethods <- NoSet
   TableAbsorbs <- NoSet
   Emit = FALSE
-INVARIANT RenormLawGenericStrict
+  PreFix = TRUE
+INVARIANT RenormLawGeneric
 CHECK_DEADLOCK FALSE
